@@ -31,9 +31,17 @@ func smBetween(max, a, s, b int) bool {
 
 // smBuild builds a seat manager in an arbitrary state satisfying Inv_SM.
 func smBuild(max int) (*SeatManager, *smPre) {
+	return smBuildOcc(max, -1)
+}
+
+// smBuildOcc: occ < 0 ranges over every occupancy; otherwise the occupancy is the given bit mask.
+func smBuildOcc(max int, occ int) (*SeatManager, *smPre) {
 	sm := NewSeatManager(max)
 	pre := &smPre{max: max}
-	occMask := vChoice("occupancy", 1<<uint(max))
+	occMask := occ
+	if occ < 0 {
+		occMask = vChoice("occupancy", 1<<uint(max))
+	}
 	pre.dealer = vChoice("dealer", max+1) - 1
 	pre.bb = -1
 	if pre.dealer >= 0 {
@@ -109,7 +117,17 @@ func smPostPlayable(sm *SeatManager, i int) bool {
 
 // Harness_SM_Next: one Next() from an arbitrary Inv_SM state.
 func Harness_SM_Next(max int) {
-	sm, pre := smBuild(max)
+	smNext(max, -1)
+}
+
+// Harness_SM_NextOcc: the same step for one fixed occupancy (bit mask), a slice of the larger table sizes
+// that is cheap enough for the quick tier.
+func Harness_SM_NextOcc(max int, occ int) {
+	smNext(max, occ)
+}
+
+func smNext(max int, occ int) {
+	sm, pre := smBuildOcc(max, occ)
 	playable := smCountPlayable(pre)
 	waiting := int64(0) // seated (not reserved) but inactive: let in by Next when needed
 	for i := 0; i < max; i++ {
@@ -222,7 +240,15 @@ func Harness_SM_Next(max int) {
 			vAssert(smPostPlayable(sm, pending), "C08.late-joiner-dealt-in-once-button-passed")
 			vCover("sm.late-joiner-in")
 		} else if pending != nd {
-			vAssertK(!smPostPlayable(sm, pending), "C08.late-joiner-not-before-button-passes", "KF-C08-HEADSUP3", kfRegion)
+			// KF-C08-LATEJOIN-BEHIND-BB: "activate the rest of the seats" lets a waiting player in when
+			// the new big blind lands in front of his seat (players who sat out between the old dealer and
+			// the old big blind have come back), although the button has not reached him. Region: the
+			// waiting seat lies strictly behind the new big blind, before the new dealer.
+			if vFork(kfRegion) {
+				vAssertK(!smPostPlayable(sm, pending), "C08.late-joiner-not-before-button-passes", "KF-C08-HEADSUP3", true)
+			} else {
+				vAssertK(!smPostPlayable(sm, pending), "C08.late-joiner-not-before-button-passes", "KF-C08-LATEJOIN-BEHIND-BB", smBetween(max, nb, pending, nd))
+			}
 			vCover("sm.late-joiner-waits")
 		}
 	}
